@@ -82,6 +82,12 @@ def run(ctx):
              "pops leaves the operands behind); decided for the loop-free handlers by enumerating "
              "their paths, error exits excluded; Runtime::input is the reviewed state machine")
     rule_h(ctx, cr)
+    ctx.rule("C18.i", "single-opcode statements are stack-neutral: the number of operands the "
+             "generator emits before the opcode (expression fragments, literals, variable reads, "
+             "minus stores) equals what the opcode's VM handler takes off the stack on its "
+             "successful paths (C18.h) - decided where the generator is loop-free and the "
+             "handler's effect is unique")
+    rule_i(ctx, cr)
     ctx.rule("C18.g", "INPUT pushes exactly as many reply fields as the statement's Input opcodes "
              "pop: do_input rejects every reply whose field count differs from the variable count "
              "(see C17.f), so a completed INPUT leaves nothing on the stack")
@@ -313,3 +319,47 @@ def rule_h(ctx, cr):
                   "statement does not leave the stack as it found it and repeating it runs the "
                   "stack full" % (name, sorted(eff)))
     ctx.floor("C18.h", "loop-free handlers with a decidable stack effect", n, 15)
+
+
+def rule_i(ctx, cr):
+    from rules import c01
+    _lp, now = c01.dispatch_now(cr)
+
+    def handler_net(op):
+        arm = now.get(op, [])
+        hs = [re.sub(r"^self\.", "mach::runtime::Runtime::", a) for a in arm if a.startswith("self.")]
+        if len(hs) != 1 or hs[0] not in cr.fns:
+            return None
+        e = ok_path_effects(cr.fns[hs[0]])
+        if isinstance(e, str) or len(e) != 1:
+            return None
+        return next(iter(e))
+    n = 0
+    for p, g in sorted(cr.fns.items()):
+        if not p.startswith("mach::codegen::Generator::") or "{" in p or g.sccs():
+            continue
+        ops = []
+        for c in g.calls_to("mach::link::Link::push"):
+            sv = g.stored_variant(g.value_of_operand(c.args[1]))
+            ops.append(sv[1] if sv else "?")
+        nonlit = [o for o in ops if o != "Literal"]
+        if len(nonlit) != 1 or nonlit[0] == "?":
+            continue
+        net = handler_net(nonlit[0])
+        if net is None:
+            continue
+        operands = len(g.calls_to("mach::link::Link::append")) + ops.count("Literal") + \
+            len(g.calls_to("mach::codegen::VarItem::push_as_expression")) - \
+            len(g.calls_to("mach::codegen::VarItem::push_as_pop")) - \
+            len(g.calls_to("mach::codegen::VarItem::push_as_pop_unary"))
+        n += 1
+        ctx.touch(g)
+        name = p.rsplit("::", 1)[1]
+        ctx.check(operands + net == 0, "C18.i", "statement/%s" % name, g.span,
+                  "%d operand(s) emitted, Opcode::%s takes %d" % (operands, nonlit[0], -net),
+                  "Generator::%s emits %d operand(s) but Opcode::%s's handler changes the stack "
+                  "by %+d: every execution of the statement leaves the stack %s"
+                  % (name, operands, nonlit[0], net,
+                     "deeper (a leak)" if operands + net > 0 else "short (it eats the caller's "
+                     "entries)"))
+    ctx.floor("C18.i", "single-opcode statements decided", n, 15)
